@@ -129,6 +129,10 @@ def cfgs(tier):
             for tr in ("none", "all"):
                 big.append(({"mem": mem, "depth": 2, "width": 2, "gran": 1, "rp": 1, "wp": 2, "transparent": tr, "init": [],
                              "rows": [0], "wdata": [0, 3], "wen": [1, 3]}, {"max_depth": 4}))
+        # a write-port count that is not a power of two (bank-number widths), restricted data alphabet
+        for mem in ("MultiportXORMemory", "MultiportXORILVTMemory", "MultiportOneHotILVTMemory"):
+            big.append(({"mem": mem, "depth": 2, "width": 1, "rp": 1, "wp": 3, "transparent": "none", "init": [],
+                         "wdata": [1]}, {"max_depth": 3}))
     else:
         for tr in ("none", "all"):
             for init in ([], [1, 0]):
